@@ -32,6 +32,7 @@ func init() {
 			need(m, &out, "packets_skipped", 3000)
 			need(m, &out, "adaptation_only_packets_in_streams", 500)
 			need(m, &out, "long_skipped_runs", 8)
+			need(m, &out, "streams_with_unparsable_packets", 100)
 			need(m, &out, "parser_runs_on_damaged_streams", 200)
 			need(m, &out, "parser_groups_observed", 1000)
 			need(m, &out, "parser_replaced_units", 300)
@@ -116,9 +117,24 @@ func runC19(c *mon.Ctx) {
 			s = withAFOnly(r, s)
 			c.Add("adaptation_only_packets_in_streams", int64(len(s.Packets)-len(orig.Packets)))
 		}
-		ref := make([]*astits.Packet, len(s.Packets))
-		for k := range s.Packets {
-			ref[k], _ = refts.DecodePacket(s.Bytes[k*188 : (k+1)*188])
+		if i%5 == 3 && len(s.Bytes) >= 376 {
+			// one or two packets with an adaptation field that runs past the end of the packet: reading them fails, with or without a
+			// skipper, and the predicate is never shown a half-parsed packet
+			b := append([]byte{}, s.Bytes...)
+			for q := 0; q < 1+r.IntN(2); q++ {
+				k := r.IntN(len(b) / 188)
+				b[k*188+3] = b[k*188+3]&0x0f | 0x30
+				b[k*188+4], b[k*188+5], b[k*188+6] = 10, 0x02, 0xff
+			}
+			s = &gen.Stream{Packets: s.Packets, Bytes: b}
+			clean, orig = false, nil
+			c.Count("streams_with_unparsable_packets")
+		}
+		ref := make([]*astits.Packet, len(s.Bytes)/188)
+		for k := range ref {
+			if p, err := refts.DecodePacket(s.Bytes[k*188 : (k+1)*188]); err == nil {
+				ref[k] = p
+			}
 		}
 		for _, pr := range predicates(r, s) {
 			for _, api := range []string{"packet", "data"} {
@@ -189,13 +205,22 @@ func skipperCase(c *mon.Ctx, idx int64, s *gen.Stream, ref []*astits.Packet, pr 
 	calls := 0
 	var problems []string
 	var decisions []bool
+	// packets the reference decoder rejects (a damaged adaptation field) cannot be offered to the predicate "fully parsed": the
+	// k-th consultation belongs to the k-th well-formed packet
+	var wf []int
+	for k := range ref {
+		if ref[k] != nil {
+			wf = append(wf, k)
+		}
+	}
 	skipper := func(p *astits.Packet) bool {
 		k := calls
 		calls++
-		if k >= len(ref) {
-			problems = append(problems, fmt.Sprintf("callback %d but the stream has %d packets", k, len(ref)))
+		if k >= len(wf) {
+			problems = append(problems, fmt.Sprintf("callback %d but the stream has %d well-formed packets", k, len(wf)))
 			return false
 		}
+		k = wf[k]
 		want := &astits.Packet{Header: ref[k].Header, AdaptationField: ref[k].AdaptationField}
 		got := &astits.Packet{Header: p.Header, AdaptationField: p.AdaptationField}
 		if d := mon.Diff(got, want, ignoreOneByte); d != "" && len(problems) < 3 {
@@ -215,8 +240,8 @@ func skipperCase(c *mon.Ctx, idx int64, s *gen.Stream, ref []*astits.Packet, pr 
 		c.Violate("C19/skipper/panic", "streams", idx, run.Panic, data)
 		return
 	}
-	if calls != len(ref) {
-		c.Violate("C19/skipper/callback-count:"+api, "streams", idx, fmt.Sprintf("predicate consulted %d times for %d packets", calls, len(ref)), data)
+	if calls != len(wf) {
+		c.Violate("C19/skipper/callback-count:"+api, "streams", idx, fmt.Sprintf("predicate consulted %d times for %d well-formed packets (%d in the stream)", calls, len(wf), len(ref)), data)
 		return
 	}
 	if len(problems) > 0 {
@@ -225,12 +250,16 @@ func skipperCase(c *mon.Ctx, idx int64, s *gen.Stream, ref []*astits.Packet, pr 
 	// the filtered stream
 	var filtered []byte
 	skipped := 0
+	dk := 0
 	for k := range ref {
-		if decisions[k] {
-			skipped++
-			continue
+		if ref[k] != nil {
+			dk++
+			if decisions[dk-1] {
+				skipped++
+				continue
+			}
 		}
-		filtered = append(filtered, s.Bytes[k*188:(k+1)*188]...)
+		filtered = append(filtered, s.Bytes[k*188:(k+1)*188]...) // kept, or damaged (never offered, so it stays)
 	}
 	c.Add("packets_skipped", int64(skipped))
 	base := RunDemux(filtered, baseCfg(api))
@@ -239,7 +268,7 @@ func skipperCase(c *mon.Ctx, idx int64, s *gen.Stream, ref []*astits.Packet, pr 
 	}
 	if api == "packet" {
 		for _, it := range run.Items {
-			if it.Packet != nil && pr.name != "coin" && pr.f(0, it.Packet) {
+			if it.Err == nil && it.Packet != nil && pr.name != "coin" && pr.f(0, it.Packet) {
 				c.Violate("C19/skipper/skipped-packet-returned:"+pr.name, "streams", idx, fmt.Sprintf("pid %#x cc %d", it.Packet.Header.PID, it.Packet.Header.ContinuityCounter), data)
 				break
 			}
@@ -278,7 +307,7 @@ func skipperCase(c *mon.Ctx, idx int64, s *gen.Stream, ref []*astits.Packet, pr 
 		got = append(got, it)
 	}
 	c.Count("skipper_runs_after_rewind")
-	if calls != len(ref) {
+	if calls != len(wf) {
 		c.Violate("C19/skipper/callback-count-after-rewind:"+api, "streams", idx, fmt.Sprintf("after Rewind the predicate was consulted %d times for %d packets", calls, len(ref)), data)
 		return
 	}
